@@ -18,7 +18,8 @@ model's extracted fields by `ViewB` / `ViewT`: "every `Extract()` the function p
   `walkOf order …` (the keys of `order` that are tokens); `updateWith_equiv`: when the order lists every token once, the result is
   `Equiv` to the model's `update` (same `count`, same lookups in both tables: all that inference reads).
 * `Update_agrees`: for every family of orders (one per `update` call site and round of the loop), `Model.Update` = `updateTxW`;
-  `updateTxW_equiv`: `Equiv` to the model's `updateTx`; `Update_fold_agrees`: training over a list of transactions from `NewModel`.
+  `updateTxW_equiv`: `Equiv` to the model's `updateTx`; `trainGo_agrees`, `trainW_equiv`, `train_agrees`: training over a list of
+  transactions from `NewModel`.
 
 Not covered: a `bayes.Model` whose maps are nil (the zero `Model`; Go would panic on the first store) — `goModel` only produces the
 values `NewModel` and `Update` produce.
@@ -525,31 +526,45 @@ def trainGo : List directives.Transaction → Nat → (Nat → (Int → List Byt
   | [], _, _, gm => .ok gm
   | gt :: rest, k, os, gm => (bayes.Model.Update gm gt (os k).1 (os k).2).bind fun gm' => trainGo rest (k + 1) os gm'
 
-/-- **training through the translated `NewModel` and `Update`**: for every family of iteration orders that list each token of their set
-once, the Go model after training on `gts` is `goModel` of tables that inference cannot tell from the model's `train` -/
-theorem Update_fold_agrees (account : Bytes) (os : Nat → (Int → List Bytes) × (Int → List Bytes)) :
-    ∀ (gts : List directives.Transaction) (txs : List Infer.TTx) (k : Nat) (m₁ m₂ : Infer.Model), Forall2 ViewT gts txs →
-      (∀ (j : Nat) (t : Infer.TTx), txs[j]? = some t → OrdersOK t.desc (os (k + j)).1 (os (k + j)).2 t.bookings 0) → m₁.Equiv m₂ →
-      ∃ m' : Infer.Model, trainGo gts k os (goModel m₁) = .ok (goModel m') ∧ m'.Equiv (txs.foldl Infer.Model.updateTx m₂)
-  | [], _, _, m₁, m₂, hv, _, h => by cases hv; exact ⟨m₁, rfl, h⟩
-  | gt :: gts, _, k, m₁, m₂, hv, ho, h => by
+/-- the model's side of that loop: transaction `k` with the walks the orders `os k` give -/
+def trainW (os : Nat → (Int → List Bytes) × (Int → List Bytes)) : List Infer.TTx → Nat → Infer.Model → Infer.Model
+  | [], _, m => m
+  | t :: ts, k, m => trainW os ts (k + 1) (updateTxW (os k).1 (os k).2 m t)
+
+/-- **training through the translated `Update`**, for EVERY family of iteration orders: the Go model after the transactions `gts` is
+`goModel` of the model's loop with the corresponding walks; nothing panics when the `Extract()` calls succeed -/
+theorem trainGo_agrees (os : Nat → (Int → List Bytes) × (Int → List Bytes)) :
+    ∀ (gts : List directives.Transaction) (txs : List Infer.TTx) (k : Nat) (m : Infer.Model), Forall2 ViewT gts txs →
+      trainGo gts k os (goModel m) = .ok (goModel (trainW os txs k m))
+  | [], _, _, m, hv => by cases hv; rfl
+  | gt :: gts, _, k, m, hv => by
     cases hv with
     | cons hv1 hrest =>
       rename_i t txs
-      have h0 := ho 0 t rfl
-      simp only [Nat.add_zero] at h0
-      obtain ⟨m', e1, e2⟩ := Update_fold_agrees account os gts txs (k + 1) (updateTxW (os k).1 (os k).2 m₁ t) (m₂.updateTx t) hrest
-        (fun j t' hj => by have := ho (j + 1) t' (by simpa using hj); rwa [show k + (j + 1) = k + 1 + j by omega] at this)
-        (updateTxW_equiv _ _ h t h0)
-      exact ⟨m', by rw [trainGo, Update_agrees m₁ gt t _ _ hv1]; exact e1, by rw [List.foldl_cons]; exact e2⟩
+      rw [trainGo, Update_agrees m gt t _ _ hv1, trainW]
+      exact trainGo_agrees os gts txs (k + 1) _ hrest
 
-/-- from `NewModel`: the trained Go model stands for tables `Equiv` to the model's `train` -/
+/-- every order of the family lists each token of its set once -/
+def TrainOrdersOK (os : Nat → (Int → List Bytes) × (Int → List Bytes)) : List Infer.TTx → Nat → Prop
+  | [], _ => True
+  | t :: ts, k => OrdersOK t.desc (os k).1 (os k).2 t.bookings 0 ∧ TrainOrdersOK os ts (k + 1)
+
+/-- **the iteration orders cannot be observed**: with orders that list every token once, the tables after training are `Equiv` to the
+model's fold of `updateTx` -/
+theorem trainW_equiv (os : Nat → (Int → List Bytes) × (Int → List Bytes)) : ∀ (txs : List Infer.TTx) (k : Nat) (m₁ m₂ : Infer.Model),
+    m₁.Equiv m₂ → TrainOrdersOK os txs k → (trainW os txs k m₁).Equiv (txs.foldl Infer.Model.updateTx m₂)
+  | [], _, _, _, h, _ => h
+  | t :: ts, k, m₁, m₂, h, ho => by
+    rw [trainW, List.foldl_cons]
+    exact trainW_equiv os ts (k + 1) _ _ (updateTxW_equiv _ _ h t ho.1) ho.2
+
+/-- from `NewModel`: the trained Go model is `goModel (trainW …)`, whose tables are `Equiv` to the model's `train` -/
 theorem train_agrees (account : Bytes) (os : Nat → (Int → List Bytes) × (Int → List Bytes)) (gts : List directives.Transaction)
-    (txs : List Infer.TTx) (hv : Forall2 ViewT gts txs)
-    (ho : ∀ (j : Nat) (t : Infer.TTx), txs[j]? = some t → OrdersOK t.desc (os j).1 (os j).2 t.bookings 0) :
-    ∃ m' : Infer.Model, trainGo gts 0 os (bayes.NewModel account) = .ok (goModel m') ∧ m'.Equiv (Infer.train account txs) := by
+    (txs : List Infer.TTx) (hv : Forall2 ViewT gts txs) (ho : TrainOrdersOK os txs 0) :
+    trainGo gts 0 os (bayes.NewModel account) = .ok (goModel (trainW os txs 0 (Infer.newModel account))) ∧
+      (trainW os txs 0 (Infer.newModel account)).Equiv (Infer.train account txs) := by
   rw [NewModel_agrees]
-  exact Update_fold_agrees account os gts txs 0 _ _ hv (by simpa using ho) (equiv_refl _)
+  exact ⟨trainGo_agrees os gts txs 0 _ hv, trainW_equiv os txs 0 _ _ (equiv_refl _) ho⟩
 
 /-! ### parsed trees -/
 
